@@ -90,36 +90,59 @@ func preorder(n interface{}, out *[]interface{}) {
 	}
 }
 
-func sortedValues(m map[string]interface{}) []interface{} {
+// mslot is one selected location: a member of an object or an element of an array.
+type mslot struct {
+	m   map[string]interface{}
+	a   []interface{}
+	key string
+	idx int
+}
+
+func (s mslot) val() interface{} {
+	if s.m != nil {
+		return s.m[s.key]
+	}
+	return s.a[s.idx]
+}
+
+func mapSlots(m map[string]interface{}) []mslot {
 	keys := make([]string, 0, len(m))
 	for k := range m {
 		keys = append(keys, k)
 	}
-	sort.Strings(keys)
-	out := make([]interface{}, len(keys))
+	sort.Strings(keys) // ascending byte-wise: the order encoding/json prints
+	out := make([]mslot, len(keys))
 	for i, k := range keys {
-		out[i] = m[k]
+		out[i] = mslot{m: m, key: k}
 	}
 	return out
 }
 
-func modelApply(st MStep, n interface{}) []interface{} {
+func arraySlots(a []interface{}) []mslot {
+	out := make([]mslot, len(a))
+	for i := range a {
+		out[i] = mslot{a: a, idx: i}
+	}
+	return out
+}
+
+func modelApply(st MStep, n interface{}) []mslot {
 	switch st.Kind {
 	case mName:
 		if m, ok := n.(map[string]interface{}); ok {
-			if v, ok := m[st.Names[0]]; ok {
-				return []interface{}{v}
+			if _, ok := m[st.Names[0]]; ok {
+				return []mslot{{m: m, key: st.Names[0]}}
 			}
 		}
 	case mMulti:
 		switch t := n.(type) {
 		case map[string]interface{}:
-			var out []interface{}
+			var out []mslot
 			for _, nm := range st.Names {
 				if nm == "*" {
-					out = append(out, sortedValues(t)...)
-				} else if v, ok := t[nm]; ok {
-					out = append(out, v)
+					out = append(out, mapSlots(t)...)
+				} else if _, ok := t[nm]; ok {
+					out = append(out, mslot{m: t, key: nm})
 				}
 			}
 			return out
@@ -129,28 +152,46 @@ func modelApply(st MStep, n interface{}) []interface{} {
 					return nil
 				}
 			}
-			var out []interface{}
+			var out []mslot
 			for range st.Names {
-				out = append(out, t...)
+				out = append(out, arraySlots(t)...)
 			}
 			return out
 		}
 	case mWild, mTrueFilter:
 		switch t := n.(type) {
 		case map[string]interface{}:
-			return sortedValues(t)
+			return mapSlots(t)
 		case []interface{}:
-			return append([]interface{}(nil), t...)
+			return arraySlots(t)
 		}
 	case mIndexUnion:
+		if m, ok := n.(map[string]interface{}); ok {
+			// a bracket holding nothing but wildcards ([*,*]) is a multi-name selector of
+			// wildcards: on an object it selects all members once per wildcard
+			for j := range st.Idx {
+				if j >= len(st.Wild) || !st.Wild[j] {
+					return nil
+				}
+			}
+			var out []mslot
+			for range st.Idx {
+				out = append(out, mapSlots(m)...)
+			}
+			return out
+		}
 		if a, ok := n.([]interface{}); ok {
-			var out []interface{}
-			for _, i := range st.Idx {
+			var out []mslot
+			for j, i := range st.Idx {
+				if j < len(st.Wild) && st.Wild[j] {
+					out = append(out, arraySlots(a)...)
+					continue
+				}
 				if i < 0 {
 					i += len(a)
 				}
 				if i >= 0 && i < len(a) {
-					out = append(out, a[i])
+					out = append(out, mslot{a: a, idx: i})
 				}
 			}
 			return out
@@ -159,27 +200,41 @@ func modelApply(st MStep, n interface{}) []interface{} {
 	return nil
 }
 
-func modelEval(steps []MStep, root interface{}) []interface{} {
+// modelWalk evaluates the modelled steps and returns the selected locations in order.
+func modelWalk(steps []MStep, root interface{}) []mslot {
 	nodes := []interface{}{root}
+	var slots []mslot
 	for i := 0; i < len(steps); i++ {
-		var next []interface{}
+		slots = nil
 		if steps[i].Kind == mRecursive {
 			i++
 			for _, n := range nodes {
 				var cs []interface{}
 				preorder(n, &cs)
 				for _, c := range cs {
-					next = append(next, modelApply(steps[i], c)...)
+					slots = append(slots, modelApply(steps[i], c)...)
 				}
 			}
 		} else {
 			for _, n := range nodes {
-				next = append(next, modelApply(steps[i], n)...)
+				slots = append(slots, modelApply(steps[i], n)...)
 			}
 		}
-		nodes = next
+		nodes = nodes[:0]
+		for _, s := range slots {
+			nodes = append(nodes, s.val())
+		}
 	}
-	return nodes
+	return slots
+}
+
+func modelEval(steps []MStep, root interface{}) []interface{} {
+	slots := modelWalk(steps, root)
+	out := make([]interface{}, len(slots))
+	for i, s := range slots {
+		out[i] = s.val()
+	}
+	return out
 }
 
 // functions registered in C07's runs (no failing, yielding ones needed here)
@@ -225,6 +280,8 @@ func runC07() *RunResult {
 		doc       interface{}
 		solo      string
 		soloLog   string
+		ref       *ParsedFn   // reference function for documents edited in place
+		live      interface{} // one document object that the caller keeps and edits in place
 		model     string
 		hasMod    bool
 		modelVals []interface{}
@@ -258,6 +315,8 @@ func runC07() *RunResult {
 		}
 		// the function the task will call repeatedly (own tree: the reference keeps its own)
 		k.fn = soloParse(k.p, orderCfg)
+		k.ref = soloParse(k.p, orderCfg)
+		k.live = deepCopy(k.doc)
 		ks = append(ks, k)
 		cases = append(cases, fnv(k.p.Text+"|"+canon(k.doc)))
 	}
@@ -292,6 +351,32 @@ func runC07() *RunResult {
 					simrt.SetMapPolicy(simrt.MapMixed)
 					_, o.Got = safeCall(k.fn.Fn, d)
 					o.Got = clip(o.Got, 80)
+				}
+				t.ops = append(t.ops, o)
+			}
+			if chance(20) {
+				// the caller edits ONE document object in place between evaluations (a member
+				// renamed: same member count, same map object; an element replaced) and
+				// evaluates on that very object; reference: a fresh copy of the edited document
+				editPick := rn(1 << 16)
+				o := &Op{Kind: opCustom, Path: k.p}
+				o.Do = func(t *Task, o *Op) {
+					editInPlace(k.live, editPick)
+					simrt.SetMapPolicy(1 + editPick%4)
+					_, o.Got = safeCall(k.fn.Fn, k.live)
+					got, gotLog := o.Got, t.rec.log()
+					if simrt.Aborted() != 0 {
+						return
+					}
+					simrt.SetMode(simrt.ModeSolo)
+					exp, expLog := soloEval(k.ref, deepCopy(k.live), [nFuncs]uint64{}, &t.refRec)
+					simrt.SetMode(simrt.ModeSim)
+					curRec[t.id] = &t.rec
+					t.judged++
+					t.probe("evaluated-on-a-document-edited-in-place")
+					if got != exp || gotLog != expLog {
+						t.fail("C07:order-differs-between-evaluations", k.p.Text, fmt.Sprintf("%v on a document object that was edited in place since its last evaluation\n  document now %s\n  got                                   %s\n  on an independently built equal document %s", o, clip(canon(k.live), 400), clip(got, 400), clip(exp, 400)))
+					}
 				}
 				t.ops = append(t.ops, o)
 			}
@@ -375,4 +460,50 @@ func sameMultiset(a, b []interface{}) bool {
 		}
 	}
 	return true
+}
+
+// editInPlace renames one member of one object of v (add the new name, delete the old one:
+// the member count stays the same) or replaces one array element by a leaf.
+func editInPlace(v interface{}, pick int) {
+	var objs []map[string]interface{}
+	var arrs [][]interface{}
+	var walk func(x interface{}, d int)
+	walk = func(x interface{}, d int) {
+		if d > 6 {
+			return
+		}
+		switch t := x.(type) {
+		case map[string]interface{}:
+			if len(t) > 0 {
+				objs = append(objs, t)
+			}
+			for _, k := range sortedKeys(t) {
+				walk(t[k], d+1)
+			}
+		case []interface{}:
+			if len(t) > 0 {
+				arrs = append(arrs, t)
+			}
+			for _, e := range t {
+				walk(e, d+1)
+			}
+		}
+	}
+	walk(v, 0)
+	if len(objs) > 0 && (pick%3 != 0 || len(arrs) == 0) {
+		m := objs[pick%len(objs)]
+		keys := sortedKeys(m)
+		old := keys[(pick/7)%len(keys)]
+		neu := orderKeys[(pick/13)%len(orderKeys)]
+		if _, exists := m[neu]; exists || neu == old {
+			neu = old + "'"
+		}
+		m[neu] = m[old]
+		delete(m, old)
+		return
+	}
+	if len(arrs) > 0 {
+		a := arrs[pick%len(arrs)]
+		a[(pick/5)%len(a)] = float64(pick % 9)
+	}
 }
